@@ -87,6 +87,10 @@ type wmUdpConn struct {
 	wm sync.Mutex
 }
 
+// A udp query can be as large as a udp datagram can be. A smaller read buffer
+// would cut it and the cut query cannot be decoded.
+const udpReadBufSize = 65535
+
 func (s *udpServer) startThread(c *net.UDPConn) error {
 	switch runtime.GOOS {
 	case "linux":
@@ -100,7 +104,7 @@ func (s *udpServer) startThreadLinux(c *net.UDPConn) error {
 	listenerAddr := c.LocalAddr().(*net.UDPAddr).AddrPort()
 	ms := make([]ipv6.Message, 16)
 	for i := range ms {
-		ms[i].Buffers = [][]byte{make([]byte, 2048)} // TODO: Configurable?
+		ms[i].Buffers = [][]byte{make([]byte, udpReadBufSize)}
 		ms[i].OOB = make([]byte, 512)
 	}
 
@@ -133,7 +137,7 @@ func (s *udpServer) startThreadLinux(c *net.UDPConn) error {
 
 func (s *udpServer) startThreadOthers(c *net.UDPConn) error {
 	listenerAddr := c.LocalAddr().(*net.UDPAddr).AddrPort()
-	b := make([]byte, 2048)
+	b := make([]byte, udpReadBufSize)
 	oob := make([]byte, 512)
 	for {
 		n, oobN, _, remoteAddr, err := c.ReadMsgUDPAddrPort(b, oob)
